@@ -17,6 +17,7 @@ def run(rep, tier):
     kernels.run_generators(rep, ["apply_operator_matrix", "trace_out_matrix"])
     from vf.pyvc import tensors
     tensors.run_tensor_contracts(rep, ["C09"])
+    kernels.run_delegation(rep, ['measure_POVM'])
     from vf import lemmas
     lemmas.lemma_obligations(rep, ["complete_set_preserves_trace"])
     B.run_b(rep, morecells.povm_cells(tier, common.seed()), ["C09"], explore=True, tier=tier)
